@@ -64,239 +64,6 @@ func runC19(p *Program, r *Report) {
 	r.Floor("C19.premise-C07.all-returns", 3)
 }
 
-// checkFormatLoader discharges the per-loader obligations of C07.
-func checkFormatLoader(p *Program, r *Report, pre, short string) {
-	L := p.Func(short, "Load")
-	key := short + ".Load"
-	if L == nil || len(L.Params) != 1 {
-		r.Undecide(pre+".tee", key, "-", "anchor function Load(r io.Reader) not found")
-		return
-	}
-	r.SawFn(shortFn(L))
-	rp := L.Params[0]
-	pos := p.FnPos(L)
-
-	// --- locate the single TeeReader and MultiReader calls
-	var tee, multi *ssa.Call
-	var calls []*ssa.Call
-	hasGo := false
-	for _, b := range L.Blocks {
-		for _, in := range b.Instrs {
-			switch in := in.(type) {
-			case *ssa.Call:
-				calls = append(calls, in)
-				if _, ok := callTo(in, "io", "TeeReader"); ok {
-					if tee != nil {
-						r.Violate(pre+".tee", key, p.InstrPos(in), "more than one io.TeeReader call")
-					}
-					tee = in
-				}
-				if _, ok := callTo(in, "io", "MultiReader"); ok {
-					if multi != nil {
-						r.Violate(pre+".order", key, p.InstrPos(in), "more than one io.MultiReader call")
-					}
-					multi = in
-				}
-			case *ssa.Go:
-				hasGo = true
-			}
-		}
-	}
-	if tee == nil {
-		r.Violate(pre+".tee", key, pos, "no io.TeeReader(r, B) call: consumed bytes are not recorded for replay")
-		return
-	}
-	if multi == nil {
-		r.Violate(pre+".order", key, pos, "no io.MultiReader(B, r) call: nothing replays the consumed prefix")
-		return
-	}
-
-	// --- B: the buffer
-	bval := stripIface(tee.Call.Args[1])
-	balloc, _ := bval.(*ssa.Alloc)
-	if balloc == nil || !namedIs(balloc.Type(), "bytes", "Buffer") {
-		r.Violate(pre+".buffer", key, p.InstrPos(tee), "second argument of io.TeeReader is not a fresh *bytes.Buffer allocation")
-		return
-	}
-
-	// --- MultiReader arguments
-	elems, ok := sliceLitElems(multi.Call.Args[0])
-	if !ok {
-		r.Undecide(pre+".order", key, p.InstrPos(multi), "io.MultiReader arguments are not a literal argument list")
-		return
-	}
-	orderOK := len(elems) == 2 && stripIface(elems[0]) == ssa.Value(balloc) && elems[1] == ssa.Value(rp)
-	r.Check(orderOK, pre+".order", key, p.InstrPos(multi),
-		"io.MultiReader(B, r): buffer first, then the rest of the source, nothing else",
-		fmt.Sprintf("io.MultiReader arguments are %s; required exactly (rewind buffer, source reader) in that order", describeVals(elems, balloc, rp)))
-
-	// --- obligation 1: uses of r
-	teeOK := tee.Call.Args[0] == ssa.Value(rp)
-	var stray []string
-	for _, u := range refs(rp) {
-		switch u := u.(type) {
-		case *ssa.Call:
-			if u == tee && teeOK {
-				continue
-			}
-		case *ssa.Store:
-			// the varargs slot of MultiReader
-			if ia, ok := u.Addr.(*ssa.IndexAddr); ok && u.Val == ssa.Value(rp) {
-				if sl, ok := multi.Call.Args[0].(*ssa.Slice); ok && ia.X == sl.X {
-					continue
-				}
-			}
-		}
-		stray = append(stray, fmt.Sprintf("%s (%s)", u.String(), p.InstrPos(u)))
-	}
-	r.Check(teeOK && len(stray) == 0, pre+".tee", key, p.InstrPos(tee),
-		"source reader r is used only as io.TeeReader(r, B) source and as the last io.MultiReader argument",
-		fmt.Sprintf("source reader r has uses behind the tee's back: %v (teeSourceIsR=%v): bytes read there are missing from the replay", stray, teeOK))
-
-	// --- obligation 1b: uses of B
-	stray = nil
-	for _, u := range refs(balloc) {
-		mi, ok := u.(*ssa.MakeInterface)
-		if !ok {
-			if st, ok := u.(*ssa.Store); ok && st.Addr == ssa.Value(balloc) {
-				continue // zero-initialisation of the composite literal
-			}
-			stray = append(stray, fmt.Sprintf("%s (%s)", u.String(), p.InstrPos(u)))
-			continue
-		}
-		for _, uu := range refs(mi) {
-			switch uu := uu.(type) {
-			case *ssa.Call:
-				if uu == tee && tee.Call.Args[1] == ssa.Value(mi) {
-					continue
-				}
-			case *ssa.Store:
-				if ia, ok := uu.Addr.(*ssa.IndexAddr); ok {
-					if sl, ok := multi.Call.Args[0].(*ssa.Slice); ok && ia.X == sl.X {
-						continue
-					}
-				}
-			}
-			stray = append(stray, fmt.Sprintf("%s (%s)", uu.String(), p.InstrPos(uu)))
-		}
-	}
-	r.Check(len(stray) == 0, pre+".buffer", key, p.InstrPos(balloc),
-		"rewind buffer B is a fresh *bytes.Buffer used only as the tee's sink and the MultiReader's first reader",
-		fmt.Sprintf("rewind buffer has other uses %v: it may be drained, reset or truncated before replay", stray))
-
-	// --- obligation 2: the tee is consumed only through one bufio reader handed to in-module parsers
-	var parser *ssa.Function
-	var parserCall *ssa.Call
-	otOK := true
-	var otWhy string
-	for _, u := range refs(tee) {
-		c, ok := u.(*ssa.Call)
-		f := staticCallee(c)
-		if !ok || !(fnIs(f, "bufio", "NewReader") || fnIs(f, "bufio", "NewReaderSize")) {
-			otOK = false
-			otWhy = fmt.Sprintf("tee reader is used by %s (%s), not only wrapped in one bufio reader", u.String(), p.InstrPos(u))
-			continue
-		}
-		// uses of the bufio reader
-		var walk func(v ssa.Value)
-		walk = func(v ssa.Value) {
-			for _, uu := range refs(v) {
-				switch uu := uu.(type) {
-				case *ssa.MakeInterface:
-					walk(uu)
-				case *ssa.ChangeInterface:
-					walk(uu)
-				case *ssa.Call:
-					cf := staticCallee(uu)
-					if cf != nil && isPrismFn(cf) {
-						if parser != nil && parser != cf {
-							otOK = false
-							otWhy = "buffered tee handed to more than one parser"
-						}
-						parser, parserCall = cf, uu
-						continue
-					}
-					otOK = false
-					otWhy = fmt.Sprintf("buffered tee reader used by %s (%s)", uu.String(), p.InstrPos(uu))
-				default:
-					otOK = false
-					otWhy = fmt.Sprintf("buffered tee reader escapes through %s (%s)", uu.String(), p.InstrPos(uu))
-				}
-			}
-		}
-		walk(c)
-	}
-	if parser == nil && otOK {
-		otOK = false
-		otWhy = "no in-module parser receives the buffered tee reader"
-	}
-	r.Check(otOK, pre+".only-through-tee", key, p.InstrPos(tee),
-		fmt.Sprintf("the parser %s reads only bufio(tee(r, B))", shortFn(parser)), otWhy)
-
-	// --- obligation 4: every return yields the MultiReader as result #1
-	retOK := true
-	nret := 0
-	var retWhy string
-	for _, b := range L.Blocks {
-		for _, in := range b.Instrs {
-			ret, ok := in.(*ssa.Return)
-			if !ok {
-				continue
-			}
-			nret++
-			if len(ret.Results) != 3 || resolveResult(ret.Results[1]) != ssa.Value(multi) {
-				retOK = false
-				retWhy = fmt.Sprintf("return at %s yields %s as the stream instead of io.MultiReader(B, r)", p.InstrPos(ret), valStr(ret.Results, 1))
-			}
-		}
-	}
-	if nret == 0 {
-		retOK, retWhy = false, "function has no return"
-	}
-	r.Check(retOK, pre+".all-returns", key, pos,
-		fmt.Sprintf("all %d return instructions yield the MultiReader (non-nil) whatever err is", nret), retWhy)
-
-	// --- obligation 6: no other calls in L
-	npOK := true
-	var npWhy string
-	for _, c := range calls {
-		f := staticCallee(c)
-		switch {
-		case c == tee, c == multi, c == parserCall:
-		case fnIs(f, "bufio", "NewReader"), fnIs(f, "bufio", "NewReaderSize"):
-		default:
-			npOK = false
-			npWhy = fmt.Sprintf("unexpected call %s at %s in the loader outside the recover-guarded parser", c.String(), p.InstrPos(c))
-		}
-	}
-	r.Check(npOK, pre+".no-panic-outside", key, pos,
-		"the loader itself only constructs TeeReader, bufio reader, MultiReader and calls the parser", npWhy)
-
-	// --- obligation 7: no goroutines on the path
-	reach := reachableFns(L)
-	for f := range reach {
-		r.SawFn(shortFn(f))
-		for _, b := range f.Blocks {
-			for _, in := range b.Instrs {
-				if _, ok := in.(*ssa.Go); ok {
-					hasGo = true
-					npWhy = p.InstrPos(in)
-				}
-			}
-		}
-	}
-	r.Check(!hasGo, pre+".no-goroutine", key, pos,
-		fmt.Sprintf("no go statement in the %d prism functions reachable from the loader", len(reach)),
-		"go statement reachable from the loader ("+npWhy+"): the rewind buffer could be shared")
-
-	// --- obligation 5: recover armed before the first stream read
-	if parser != nil {
-		checkRecoverArmed(p, r, pre+".recover-armed", short+"."+parser.Name(), parser)
-	} else {
-		r.Undecide(pre+".recover-armed", key, pos, "parser not identified")
-	}
-}
-
 // resolveResult follows a value through loads of never-reassigned locals so
 // that `x := io.MultiReader(..); return md, x, err` is recognised.
 func resolveResult(v ssa.Value) ssa.Value {
@@ -551,288 +318,3 @@ func isNamedResultAlloc(fn *ssa.Function, al *ssa.Alloc) bool {
 
 // ---------------------------------------------------------------------------
 // autometa.Load  (C07 obligations a–e, C19 obligations 1–7)
-
-func checkAutoLoader(p *Program, r *Report, pre string) {
-	rule := pre + ".auto"
-	L := p.Func("meta/autometa", "Load")
-	if L == nil || len(L.Params) != 1 {
-		r.Undecide(rule, "autometa.Load", "-", "anchor function not found")
-		return
-	}
-	r.SawFn(shortFn(L))
-	pos := p.FnPos(L)
-	rp := L.Params[0]
-
-	want := []*ssa.Function{p.Func("meta/pngmeta", "Load"), p.Func("meta/jpegmeta", "Load"), p.Func("meta/webpmeta", "Load")}
-
-	// (1) the loader table
-	var table *ssa.Slice
-	for _, b := range L.Blocks {
-		for _, in := range b.Instrs {
-			if sl, ok := in.(*ssa.Slice); ok {
-				if _, ok := sl.Type().Underlying().(*types.Slice).Elem().Underlying().(*types.Signature); ok {
-					if table != nil {
-						r.Undecide(rule, "table", p.InstrPos(sl), "more than one loader table")
-						return
-					}
-					table = sl
-				}
-			}
-		}
-	}
-	if table == nil {
-		r.Undecide(rule, "autometa.Load table", pos, "loader table (slice literal of Load functions) not found")
-		return
-	}
-	elems, ok := sliceLitElems(table)
-	if !ok {
-		r.Violate(rule, "autometa.Load table", p.InstrPos(table), "loader table is modified after construction or not a literal")
-		return
-	}
-	tabOK := len(elems) == len(want)
-	got := ""
-	for i, e := range elems {
-		f, _ := e.(*ssa.Function)
-		got += shortFn(f) + " "
-		if i < len(want) && f != want[i] {
-			tabOK = false
-		}
-	}
-	if pre == "C19" {
-		r.Check(tabOK, rule, "autometa.Load (1) table", p.InstrPos(table),
-			"loader table is exactly [pngmeta.Load, jpegmeta.Load, webpmeta.Load] in that order, never modified",
-			"loader table is ["+got+"], required [pngmeta.Load jpegmeta.Load webpmeta.Load] in that order")
-	} else {
-		set := map[*ssa.Function]bool{}
-		for _, e := range elems {
-			if f, ok := e.(*ssa.Function); ok {
-				set[f] = true
-			}
-		}
-		all := true
-		for _, w := range want {
-			if !set[w] {
-				all = false
-			}
-		}
-		r.Check(all && len(elems) == 3, rule, "autometa.Load (a) table", p.InstrPos(table),
-			"loader table holds the three format loaders (each discharges C07 itself)", "loader table is ["+got+"]")
-	}
-
-	// (2) loop over the whole table in index order
-	var iv *IndVar
-	for _, c := range loopIndVars(L) {
-		iv = c
-	}
-	loopOK := false
-	var loopWhy string
-	var call *ssa.Call
-	if iv == nil {
-		loopWhy = "no counting loop over the loader table found"
-	} else {
-		initV, _ := constInt(iv.Init)
-		stepV, okS := constInt(iv.Step)
-		first := initV
-		if iv.PreInc {
-			first = initV + stepV
-		}
-		lim := false
-		if bl, ok := iv.Limit.(*ssa.Call); ok && isBuiltinCall(bl, "len") && bl.Call.Args[0] == ssa.Value(table) {
-			lim = true
-		}
-		if c, ok := constInt(iv.Limit); ok && c == int64(len(elems)) {
-			lim = true
-		}
-		loopOK = okS && stepV == 1 && first == 0 && iv.Op == token.LSS && lim
-		if !loopOK {
-			loopWhy = fmt.Sprintf("loop does not visit indices 0..len(table)-1 in order (first=%d step=%d op=%s)", first, stepV, iv.Op)
-		}
-		// the call through the table
-		for _, b := range L.Blocks {
-			for _, in := range b.Instrs {
-				c, ok := in.(*ssa.Call)
-				if !ok || c.Call.IsInvoke() {
-					continue
-				}
-				ld, ok := c.Call.Value.(*ssa.UnOp)
-				if !ok {
-					continue
-				}
-				ia, ok := ld.X.(*ssa.IndexAddr)
-				if ok && ia.X == ssa.Value(table) && ia.Index == iv.Counter {
-					if call != nil {
-						loopOK, loopWhy = false, "more than one call through the loader table"
-					}
-					call = c
-				}
-			}
-		}
-		if call == nil {
-			loopOK, loopWhy = false, "no call loaders[i](stream) indexed by the loop counter"
-		}
-	}
-	if pre == "C19" {
-		r.Check(loopOK, rule, "autometa.Load (2) iteration", pos, "the loop calls loaders[i] for i = 0..len-1 in index order", loopWhy)
-	}
-	if call == nil {
-		r.Undecide(rule, "autometa.Load chaining", pos, "loader call not identified: "+loopWhy)
-		return
-	}
-
-	// (3)+(4) argument chaining: phi{r, previous call's stream}
-	var exStream, exMd, exErr *ssa.Extract
-	for _, u := range refs(call) {
-		if ex, ok := u.(*ssa.Extract); ok {
-			switch ex.Index {
-			case 0:
-				exMd = ex
-			case 1:
-				exStream = ex
-			case 2:
-				exErr = ex
-			}
-		}
-	}
-	chainOK := false
-	chainWhy := ""
-	arg := call.Call.Args[0]
-	phi, isPhi := arg.(*ssa.Phi)
-	if isPhi && len(phi.Edges) == 2 && exStream != nil {
-		a, b := phi.Edges[0], phi.Edges[1]
-		if (a == ssa.Value(rp) && b == ssa.Value(exStream)) || (b == ssa.Value(rp) && a == ssa.Value(exStream)) {
-			// the r edge must come from outside the loop (the entry), the other from the latch
-			chainOK = true
-		}
-	}
-	if !chainOK {
-		chainWhy = fmt.Sprintf("the stream passed to each loader is %s; required: the original reader for the first loader and the previous loader's returned stream afterwards", arg.String())
-	}
-	k34 := "autometa.Load (b) chaining"
-	if pre == "C19" {
-		k34 = "autometa.Load (3,4) chaining"
-	}
-	r.Check(chainOK, rule, k34, p.InstrPos(call),
-		"first loader receives r, each later loader receives the previous loader's replay stream (phi{r, nextStream})", chainWhy)
-
-	// (5) success return
-	succOK := false
-	succWhy := "no `err == nil` success return found"
-	if exErr != nil {
-		for _, u := range refs(exErr) {
-			cmp, ok := u.(*ssa.BinOp)
-			if !ok || !(isNilConst(cmp.X) || isNilConst(cmp.Y)) {
-				continue
-			}
-			for _, uu := range refs(cmp) {
-				ifi, ok := uu.(*ssa.If)
-				if !ok {
-					continue
-				}
-				tb := ifi.Block().Succs[0]
-				if cmp.Op == token.NEQ {
-					tb = ifi.Block().Succs[1]
-				}
-				if ret, ok := tb.Instrs[len(tb.Instrs)-1].(*ssa.Return); ok && len(ret.Results) == 3 {
-					if ret.Results[0] == ssa.Value(exMd) && ret.Results[1] == ssa.Value(exStream) && isNilConst(ret.Results[2]) {
-						succOK = true
-					} else {
-						succWhy = fmt.Sprintf("success return at %s yields (%s, %s, %s); required the loader's own (md, stream, nil) unmodified", p.InstrPos(ret), ret.Results[0], ret.Results[1], ret.Results[2])
-					}
-				}
-			}
-		}
-	}
-	k5 := "autometa.Load (c) success-return"
-	if pre == "C19" {
-		k5 = "autometa.Load (5) success-return"
-	}
-	r.Check(succOK, rule, k5, pos, "on err == nil the loader's md and stream are returned verbatim with a nil error", succWhy)
-
-	// (6) exhaustion return
-	exhOK := false
-	exhWhy := "no exhaustion return found"
-	for _, b := range L.Blocks {
-		ret, ok := b.Instrs[len(b.Instrs)-1].(*ssa.Return)
-		if !ok || len(ret.Results) != 3 {
-			continue
-		}
-		if ret.Results[1] == ssa.Value(exStream) && ret.Results[0] == ssa.Value(exMd) {
-			continue // success return
-		}
-		errv, isCall := ret.Results[2].(*ssa.Call)
-		nonNil := isCall && (fnIs(staticCallee(errv), "fmt", "Errorf") || fnIs(staticCallee(errv), "errors", "New"))
-		if isNilConst(ret.Results[0]) && isPhi && ret.Results[1] == ssa.Value(phi) && nonNil {
-			exhOK = true
-		} else if !succOK || ret.Results[1] != ssa.Value(exStream) {
-			exhWhy = fmt.Sprintf("return at %s yields (%s, %s, %s); required (nil, last replay stream, non-nil error)", p.InstrPos(ret), ret.Results[0], ret.Results[1], ret.Results[2])
-		}
-	}
-	// (6b) path rule: from the loader call, every path either returns that
-	// call's own stream, or re-enters the loop header handing that stream to
-	// the phi. A path that leaves the loop with the stale (already consumed)
-	// stream — a break before `inputStream = nextStream` — loses the bytes
-	// the failed loader pulled from the source.
-	if exhOK && isPhi && exStream != nil {
-		seen := map[*ssa.BasicBlock]bool{}
-		var walk func(b *ssa.BasicBlock, from *ssa.BasicBlock)
-		walk = func(b, from *ssa.BasicBlock) {
-			if b == phi.Block() {
-				for i, pred := range b.Preds {
-					if pred == from && phi.Edges[i] != ssa.Value(exStream) {
-						exhOK = false
-						exhWhy = fmt.Sprintf("the loop is re-entered from block %d with inputStream = %s instead of the failed loader's replay stream", from.Index, phi.Edges[i])
-					}
-				}
-				return
-			}
-			if seen[b] {
-				return
-			}
-			seen[b] = true
-			if ret, ok := b.Instrs[len(b.Instrs)-1].(*ssa.Return); ok {
-				if len(ret.Results) != 3 || ret.Results[1] != ssa.Value(exStream) {
-					exhOK = false
-					exhWhy = fmt.Sprintf("a path from the loader call reaches the return at %s without passing the loader's replay stream on: it returns %s, whose consumed prefix is lost", p.InstrPos(ret), valStr(ret.Results, 1))
-				}
-				return
-			}
-			for _, s := range b.Succs {
-				walk(s, b)
-			}
-		}
-		for _, s := range call.Block().Succs {
-			walk(s, call.Block())
-		}
-	}
-	k6 := "autometa.Load (d) exhaustion-return"
-	if pre == "C19" {
-		k6 = "autometa.Load (6) exhaustion-return"
-	}
-	r.Check(exhOK, rule, k6, pos, "after the last loader: nil metadata, the last loader's replay stream, a non-nil error; no path leaves the loop with a stale stream", exhWhy)
-
-	// (7) no other use of r
-	var stray []string
-	for _, u := range refs(rp) {
-		if u == ssa.Instruction(phi) && isPhi {
-			continue
-		}
-		stray = append(stray, u.String()+" ("+p.InstrPos(u)+")")
-	}
-	k7 := "autometa.Load (e) r-unused-elsewhere"
-	if pre == "C19" {
-		k7 = "autometa.Load (7) r-unused-elsewhere"
-	}
-	r.Check(len(stray) == 0, rule, k7, pos, "the source reader is only handed to the first loader", fmt.Sprintf("other uses of r: %v", stray))
-
-	if pre == "C07" {
-		hasGo := false
-		for _, b := range L.Blocks {
-			for _, in := range b.Instrs {
-				if _, ok := in.(*ssa.Go); ok {
-					hasGo = true
-				}
-			}
-		}
-		r.Check(!hasGo, "C07.no-goroutine", "autometa.Load", pos, "no go statement", "go statement in autometa.Load")
-	}
-}
